@@ -1,6 +1,7 @@
 import OrsoVerif.Generated.Iso
 import OrsoVerif.Model.IsoPrim
 import OrsoVerif.Generated.IsoText
+import OrsoVerif.Model.IsoTime
 /-!
 # C08 — `orso.tools.parse_iso` and the DATE / TIME / TIMESTAMP casts built on it
 
@@ -74,6 +75,7 @@ inductive Input where
   | date (y m d : Nat)        -- exactly `datetime.date`
   | datetime (dt : DateTime)  -- exactly `datetime.datetime`
   | time (H M S us : Nat)     -- a `datetime.time` (None for the parser; the TIME cast keeps it)
+  | strSub (s : List Char)    -- an instance of a proper subclass of `str` (None for the parser: `type(value) != str`)
   | other                     -- any other object without `to_pydatetime`
   deriving Repr
 
@@ -100,6 +102,7 @@ def strBodySkel (s : List Char) : Except Exc (Option DateTime) :=
 def body : Input → Except Exc (Option DateTime)
   | .other => .ok none
   | .time .. => .ok none
+  | .strSub _ => .ok none
   | .date y m d => .ok (some ⟨y, m, d, 0, 0, 0, 0⟩)
   | .datetime dt => .ok (some { dt with micro := 0 })
   | .int n => epoch "int" (.ok n)
@@ -142,19 +145,37 @@ inductive CastOut where
   | raises (e : Exc)
   deriving DecidableEq, Repr
 
-/-- `parse_time` returns a value that already is a `datetime.time` unchanged (types.py, the
-`isinstance(x, datetime.time)` test) before it consults the parser.  For text and bytes that the
-parser does not read, `parse_time` first tries `datetime.time.fromisoformat` (a time of day on its
-own); that is outside this model — the TIME cast is not part of C08's statement — so
-`cast .time (.str _)` / `cast .time (.bytes _)` is faithful only when `parseIso` yields a value
-(`C08.casts_agree` claims no more, and the harness compares no more). -/
+/-- `datetime.time.fromisoformat(s)` as the TIME cast uses it: the time of day, else `ValueError`. -/
+def timeOfDay (s : List Char) : CastOut :=
+  match timeFromIso s with
+  | .ok t => .time t.hour t.minute t.second t.micro
+  | .error _ => .raises .valueError
+
+/-- **Specification form of the three casts** (`parse_date`, `parse_time`, `parse_timestamp`).
+The programs translated from the source on every run are `Gen.IsoCast.*`; `Iso.castRun`
+(`Model/IsoCast.lean`) runs them and `C08.cast_programs_refine_spec` proves, on every run, that they
+compute this function on every input.
+
+* `parse_time` returns a value that already is a `datetime.time` unchanged, before the parser is consulted;
+* otherwise the parser's value gives its date / its time of day / itself;
+* when the parser yields `None`, DATE and TIMESTAMP raise `ValueError`; TIME hands text (a `str`, an
+  instance of a `str` subclass, or decodable `bytes`) to `datetime.time.fromisoformat` — a time of
+  day written on its own — and raises `ValueError` when that fails too, or for any other object. -/
 def cast (k : CastKind) (i : Input) : CastOut :=
   match k, i with
   | .time, .time H M S us => .time H M S us
   | _, _ =>
     match parseIso i with
     | .raises e => .raises e
-    | .none => .raises .valueError
+    | .none =>
+      match k, i with
+      | .time, .str s => timeOfDay s
+      | .time, .strSub s => timeOfDay s
+      | .time, .bytes b =>
+        match decodeUtf8 b with
+        | some s => timeOfDay s
+        | none => .raises .valueError
+      | _, _ => .raises .valueError
     | .value dt =>
       match k with
       | .date => .date dt.year dt.month dt.day
